@@ -19,7 +19,7 @@ func init() {
 		ID:    "C11",
 		Level: "exploration",
 		Rule: "every string of length 0..4 (thorough 0..5) over {a, é, 😀} and every num/string/nested/any array of length 0..5 (0..6), crossed with every index from " +
-			"[-n-2,n+2] ∪ {±0.5, n-0.5, ±1e18, ±2^63, 1e300, NaN, ±Inf} (as literal and as computed variable) and every pair of slice bounds from that set plus 'missing'; " +
+			"[-n-2,n+2] ∪ {±0.5, n-0.5, values one rounding step away from 0, ±1, ±n (±1e-17, ±0.9999999999999999, the residue 0.3-0.1-0.2), ±1e18, ±2^63, 1e300, NaN, ±Inf} (as literal and as computed variable) and every pair of slice bounds from that set plus 'missing'; " +
 			"reads, element stores, stores through bad indices, string element store (must be a parse error) and freshness of slices; expected result computed from the law " +
 			"in the statement (reference NormIndex/SliceVal). Non-trivial = the container is non-empty or the operation must fail.",
 		Assumptions: []string{"for integer-valued floats beyond ±2^62 either the bounds or the index-value panic is accepted (float→int conversion is implementation defined)"},
@@ -62,6 +62,8 @@ func c11Indices(n int) []float64 {
 	for i := -n - 2; i <= n+2; i++ {
 		out = append(out, float64(i))
 	}
+	// values one rounding step away from an integer: not integers, whatever arithmetic the bounds check uses
+	out = append(out, -0.9999999999999999, 0.9999999999999999, -1e-17, 1e-17, -1.0000000000000002, math.Nextafter(float64(n), 0), math.Nextafter(-float64(n), 0), 0.3-0.1-0.2)
 	return append(out, 0.5, -0.5, float64(n)-0.5, 1e18, -1e18, math.Pow(2, 63), -math.Pow(2, 63), 1e300, math.NaN(), math.Inf(1), math.Inf(-1))
 }
 
